@@ -39,3 +39,68 @@ def wbt_cases(seed, ncases, length, nkeys, nh, first_id=1):
             ops.append(op)
         cases.append({"id": first_id + c, "nh": nh, "ops": ops})
     return cases
+
+
+def pt_cases(seed, arity, ncases, length, universe, nh, first_id=1):
+    """Random PrefixTree<arity> sequences; tuples are drawn from a small pool so that removals,
+    restrictions and set algebra hit existing tuples often."""
+    rnd = random.Random(seed * 31 + arity)
+    cases = []
+    idm = {"id": True, "pairs": []}
+
+    def tup(n):
+        return [rnd.randrange(universe) for _ in range(n)]
+
+    for c in range(ncases):
+        pool = [tup(arity) for _ in range(12)]
+        ops = []
+        for i in range(length):
+            op = {"op": None, "h": rnd.randint(1, nh), "h2": 0, "h3": 0, "k": 0, "k2": 0, "t": [], "sub": [], "maps": []}
+            r = rnd.random()
+            t = rnd.choice(pool) if rnd.random() < 0.8 else tup(arity)
+            if r < 0.30:
+                op.update(op="insert", t=t)
+            elif r < 0.45:
+                op.update(op="remove", t=t)
+            elif r < 0.50:
+                op.update(op="contains", t=t)
+            elif r < 0.52:
+                op.update(op="clear")
+            elif r < 0.58:
+                op.update(op="clone", h2=rnd.randint(1, nh))
+            elif r < 0.66:
+                op.update(op="union", h2=rnd.randint(1, nh), h3=rnd.randint(1, nh))
+            elif r < 0.74:
+                op.update(op="diff", h2=rnd.randint(1, nh), h3=rnd.randint(1, nh))
+            elif arity == 0:
+                op.update(op="insert", t=[])
+            elif r < 0.78:
+                op.update(op="get", k=t[0])
+            elif r < 0.83:
+                sub = [x[1:] for x in rnd.sample(pool, rnd.randint(0, 3))]
+                op.update(op=rnd.choice(["insert_restriction", "remove_restriction"]), k=t[0], sub=sub)
+            elif r < 0.90:
+                op.update(op=rnd.choice(["insert_restriction_from", "remove_restriction_from"]), k=t[0],
+                          h2=rnd.randint(1, nh), k2=rnd.choice(pool)[0])
+            elif r < 0.95:
+                maps = []
+                for col in range(arity):
+                    if rnd.random() < 0.6:
+                        maps.append(idm)
+                    else:
+                        dom = rnd.sample(range(universe), rnd.randint(0, universe))
+                        maps.append({"id": False, "pairs": [[x, rnd.randrange(universe)] for x in sorted(dom)]})
+                op.update(op="mapped", h2=rnd.randint(1, nh), maps=maps)
+            elif arity >= 2:
+                rr = rnd.random()
+                if rr < 0.3:
+                    op.update(op="restrictions")
+                elif rr < 0.8:
+                    op.update(op="get_mut_insert", k=t[0], t=rnd.choice(pool)[1:])
+                else:
+                    op.update(op="restrictions_mut_insert", t=rnd.choice(pool)[1:])
+            else:
+                op.update(op="contains", t=t)
+            ops.append(op)
+        cases.append({"id": first_id + c, "nh": nh, "n": arity, "ops": ops})
+    return cases
